@@ -275,7 +275,8 @@ def execute(doc: dict) -> dict:
     res = core.new_result()
     tdoc = doc["template"]
     template = packgen.build_instance(
-        tdoc if "resource" in tdoc else {**tdoc, "name": "tmpl"})
+        tdoc if "resource" in tdoc
+        else {**tdoc, "name": "t" + core.digest(tdoc)[:10]})
     core.bump(res["probes"], "template:shipped" if "resource" in tdoc
               else "template:synthetic")
     space = InstanceSpace(template)
